@@ -8,6 +8,7 @@ ASSUMPTIONS = [
     "the targeted histories also report oracle bit 32 (an instance holds a class-level default object itself): the oracle chain stops at the first failing operation, and two instances holding the same class-level object is the root cause of the result/receiver sharing that bit 4 would report on a later reset",
     "oracles evaluated in Python on the same observed graphs: a copy-on-write call that must produce a copy (a real value given, a transform, an element helper, reset) does not hand back the receiver itself; a do_not_copy attribute not addressed by the call is held by identity in the copy (receivers of K2, its spec subclass K3 and its PLAIN subclass K4)",
     "plain subclasses (K4 = plain subclass of K2, flavour='plain'): correspondence and oracles only; the theorems keep the own_metadata guard",
+    "classes derived from a @spec_class(do_not_copy=True) class (the class-level flag is not inherited; spec / eager spec / plain subclasses, one and two levels, also below a do_not_copy=True class in the middle of a chain, as receiver and nested in a holder): implementation-level probe dnc_parent_probe whose oracle is the property statement evaluated in Python (distinct result, no shared mutable object outside declared do_not_copy attributes and the caller's arguments, in-place follow-ups invisible across); not a Coq evaluation — do_not_copy=True classes are outside the model",
     "exempt: objects reachable from arguments of the call, values of do_not_copy attributes (and what they reach), the receiver itself when a no-op form returns it",
     "class grammar as C01 plus identity item preparers on List/Dict of spec instances and more do_not_copy attributes; KeyedList/KeyedSet attributes and do_not_copy=True classes are outside the model",
 ]
@@ -99,6 +100,267 @@ def dnc_family_probe(chk, extra):
     extra["dnc_family_probe"] = {"cases": n, "failing": bad}
 
 
+DNC_PARENT_DECLS = (None, False, ("entries",), ("values", "table"), ("entries", "reg", "values", "inner", "items"))
+ATTRS10 = ("label", "entries", "reg", "ks", "count", "values", "table", "inner", "tags", "items")
+
+
+def _dp_make(cls, K, mode="ctor"):
+    """a receiver with every attribute set to freshly built values (constructor, or in-place helpers)"""
+    kw = dict(label="l", entries=[7, 8], reg={"a": 1}, ks=[K("z", marks=[1])], count=1, values=[1, 2],
+              table={"a": [1], "b": []}, inner=K("i", marks=[2]), tags={1, 2}, items=[K("a", marks=[5]), K("b")])
+    if mode == "ctor":
+        return cls(**kw)
+    o = cls(inner=K("first"))
+    for a, v in kw.items():
+        getattr(o, "with_" + a)(v, _inplace=True)
+    return o
+
+
+def _dp_calls(K, arg):
+    """(name, call, attributes the call addresses ('*': all)); `arg` records the mutable objects the
+    caller hands to the call (exempt from the sharing oracle)"""
+    import copy
+
+    def inc(v):
+        return v + 1
+    return [
+        ("deepcopy", lambda o: copy.deepcopy(o), ()),
+        ("with_count(3)", lambda o: o.with_count(3), ("count",)),
+        ("with_label('z')", lambda o: o.with_label("z"), ("label",)),
+        ("update_count(4)", lambda o: o.update_count(4), ("count",)),
+        ("transform_count(+1)", lambda o: o.transform_count(inc), ("count",)),
+        ("reset_count()", lambda o: o.reset_count(), ("count",)),
+        ("with_values(new)", lambda o: o.with_values(arg([5, 6])), ("values",)),
+        ("with_entries(new)", lambda o: o.with_entries(arg([8])), ("entries",)),
+        ("with_reg(new)", lambda o: o.with_reg(arg({"n": 1})), ("reg",)),
+        ("with_table(new)", lambda o: o.with_table(arg({"n": arg([1])})), ("table",)),
+        ("with_inner(new)", lambda o: o.with_inner(arg(K("n", marks=arg([1])))), ("inner",)),
+        ("with_tags(new)", lambda o: o.with_tags(arg({4})), ("tags",)),
+        ("with_items(new)", lambda o: o.with_items(arg([arg(K("n"))])), ("items",)),
+        ("update_values(new)", lambda o: o.update_values(arg([9])), ("values",)),
+        ("transform_values(copy+[9])", lambda o: o.transform_values(lambda v: list(v) + [9]), ("values",)),
+        ("transform_entries(copy+[9])", lambda o: o.transform_entries(lambda v: list(v) + [9]), ("entries",)),
+        ("update_inner(marks=new)", lambda o: o.update_inner(marks=arg([9])), ("inner",)),
+        ("transform_inner(marks=copy+[1])", lambda o: o.transform_inner(marks=lambda m: list(m) + [1]), ("inner",)),
+        ("reset_values()", lambda o: o.reset_values(), ("values",)),
+        ("reset_entries()", lambda o: o.reset_entries(), ("entries",)),
+        ("reset_inner()", lambda o: o.reset_inner(), ("inner",)),
+        ("reset_table()", lambda o: o.reset_table(), ("table",)),
+        ("with_value(5)", lambda o: o.with_value(5), ("values",)),
+        ("with_value(5, _index=0, _insert=True)", lambda o: o.with_value(5, _index=0, _insert=True), ("values",)),
+        ("transform_value(0, +1)", lambda o: o.transform_value(0, inc, _by_index=True), ("values",)),
+        ("without_value(0)", lambda o: o.without_value(0, _by_index=True), ("values",)),
+        ("with_entry(9)", lambda o: o.with_entry(9), ("entries",)),
+        ("transform_entry(0, +1)", lambda o: o.transform_entry(0, inc, _by_index=True), ("entries",)),
+        ("without_entry(0)", lambda o: o.without_entry(0, _by_index=True), ("entries",)),
+        ("with_reg_item('k', 1)", lambda o: o.with_reg_item("k", 1), ("reg",)),
+        ("transform_reg_item('a', +1)", lambda o: o.transform_reg_item("a", inc), ("reg",)),
+        ("without_reg_item('a')", lambda o: o.without_reg_item("a"), ("reg",)),
+        ("with_table_item('k', new)", lambda o: o.with_table_item("k", arg([1])), ("table",)),
+        ("transform_table_item('a', copy+[1])", lambda o: o.transform_table_item("a", lambda v: list(v) + [1]), ("table",)),
+        ("without_table_item('a')", lambda o: o.without_table_item("a"), ("table",)),
+        ("with_tag(5)", lambda o: o.with_tag(5), ("tags",)),
+        ("without_tag(1)", lambda o: o.without_tag(1), ("tags",)),
+        ("with_item('c', marks=new)", lambda o: o.with_item("c", marks=arg([3])), ("items",)),
+        ("with_item(new K)", lambda o: o.with_item(arg(K("c"))), ("items",)),
+        ("update_item(0, marks=new)", lambda o: o.update_item(0, marks=arg([3])), ("items",)),
+        ("transform_item(0, marks=copy+[1])", lambda o: o.transform_item(0, marks=lambda m: list(m) + [1]), ("items",)),
+        ("without_item(0)", lambda o: o.without_item(0), ("items",)),
+        ("with_k('q')", lambda o: o.with_k("q"), ("ks",)),
+        ("update_k(0, marks=new)", lambda o: o.update_k(0, marks=arg([1])), ("ks",)),
+        ("without_k(0)", lambda o: o.without_k(0), ("ks",)),
+        ("update(count=7)", lambda o: o.update(count=7), ("count",)),
+        ("update(values=new, label='q')", lambda o: o.update(values=arg([1]), label="q"), ("values", "label")),
+        ("transform(count=+1)", lambda o: o.transform(count=inc), ("count",)),
+        ("transform(values=copy+[1])", lambda o: o.transform(values=lambda v: list(v) + [1]), ("values",)),
+        ("reset()", lambda o: o.reset(), ("*",)),
+    ]
+
+
+def _dp_holder_calls(cls, K, arg):
+    """helpers of a class holding instances of `cls` as nested value, list elements and dict values;
+    third component: the nested instances are copied whole (their do_not_copy attributes carried)"""
+    import copy
+
+    def inc(v):
+        return v + 1
+
+    def new():
+        return arg(_dp_make(cls, K))
+    return [
+        ("deepcopy", lambda h: copy.deepcopy(h), True),
+        ("with_n(2)", lambda h: h.with_n(2), True),
+        ("update(n=1)", lambda h: h.update(n=1), True),
+        ("transform(n=+1)", lambda h: h.transform(n=inc), True),
+        ("with_kid(new)", lambda h: h.with_kid(new()), False),
+        ("update_kid(count=3)", lambda h: h.update_kid(count=3), False),
+        ("update_kid(values=new)", lambda h: h.update_kid(values=arg([4])), False),
+        ("transform_kid(count=+1)", lambda h: h.transform_kid(count=inc), False),
+        ("reset_kid()", lambda h: h.reset_kid(), False),
+        ("with_kids_item(new)", lambda h: h.with_kids_item(new()), False),
+        ("update_kids_item(0, count=5)", lambda h: h.update_kids_item(0, count=5), False),
+        ("transform_kids_item(0, label=+'!')", lambda h: h.transform_kids_item(0, label=lambda s: s + "!"), False),
+        ("without_kids_item(0)", lambda h: h.without_kids_item(0), False),
+        ("with_lookup_item('c', new)", lambda h: h.with_lookup_item("c", new()), False),
+        ("update_lookup_item('a', count=2)", lambda h: h.update_lookup_item("a", count=2), False),
+        ("transform_lookup_item('a', count=+1)", lambda h: h.transform_lookup_item("a", count=inc), False),
+        ("without_lookup_item('a')", lambda h: h.without_lookup_item("a"), False),
+        ("update(kid=new)", lambda h: h.update(kid=new()), False),
+        ("reset()", lambda h: h.reset(), False),
+    ]
+
+
+def _dp_poke(x, K):
+    """in-place changes of a member instance at every depth: helpers with _inplace=True and direct
+    mutation of nested containers / nested spec instances"""
+    ops = [lambda: x.with_count(99, _inplace=True), lambda: x.with_label("poked", _inplace=True),
+           lambda: x.with_value(99, _inplace=True), lambda: x.with_entry(99, _inplace=True),
+           lambda: x.with_reg_item("zz", 99, _inplace=True), lambda: x.with_table_item("zz", [99], _inplace=True),
+           lambda: [v.append(98) for v in x.table.values()], lambda: x.with_tag(99, _inplace=True),
+           lambda: x.inner.with_mark(99, _inplace=True), lambda: x.update_inner(name="poked", _inplace=True),
+           lambda: x.with_item("pk", _inplace=True), lambda: x.update_item(0, marks=[97], _inplace=True),
+           lambda: [k.marks.append(96) for k in list(x.items) + list(x.ks)], lambda: x.with_k("pk", _inplace=True)]
+    skipped = 0
+    for f in ops:
+        try:
+            f()
+        except (AttributeError, IndexError, KeyError):
+            skipped += 1            # the attribute was removed by a reset / the collection is empty
+    return skipped
+
+
+def dnc_parent_probe(chk, extra, only=None):
+    """implementation-only (do_not_copy=True classes are outside the model, and inst_common cannot
+    give a subclass a do_not_copy declaration of its own): the class-level do_not_copy=True flag of
+    a class is NOT inherited by the classes derived from it.  Receivers: spec subclass (bare
+    @spec_class, do_not_copy=False, do_not_copy=[inherited and own attributes]), spec / eager spec /
+    plain subclasses of that, a spec subclass of a plain subclass of the parent, and classes below a
+    do_not_copy=True class in the middle of the chain; before and after that middle class is first
+    used; lazy and eager bootstrap; receivers built by the constructor and by in-place helpers; and
+    the same instances nested in a holder (value, list elements, dict values).
+    Oracle (the property statement): every copy-on-write helper kind and deepcopy returns a distinct
+    object; no mutable object is reachable from both result and receiver except the values of
+    attributes the receiver's class declares do_not_copy and the caller's own arguments; declared
+    do_not_copy attributes not addressed by the call are held by identity; in-place changes of the
+    result at every depth are invisible through the receiver and vice versa."""
+    n = bad = raised = pokes_skipped = 0
+    args = []
+
+    def arg(x):
+        args.append(x)
+        return x
+
+    def report(reasons, info):
+        nonlocal bad
+        bad += 1
+        if bad <= 4:
+            chk.violation("C02 violated by the implementation: %s on an instance of %s (%s; derived from a "
+                          "@spec_class(do_not_copy=True) class, declared do_not_copy attributes: %s): %s"
+                          % (info["call"], info["class"], info["nesting"], info["declared"], "; ".join(reasons)),
+                          dict(info, kind="dnc-parent", reasons=reasons), sig={"kind": "dnc-parent"})
+
+    configs = [(e, d) for e in (False, True) for d in DNC_PARENT_DECLS]
+    if only is not None:
+        configs = [c for c in configs if c == only]
+    for eager, decl in configs:
+        K, holder, TrueSub, members = c02_gen.dnc_parent_family(eager, decl)
+        calls = _dp_calls(K, arg)
+        # eager bootstrap: every class is complete at definition, one pass is enough
+        for when in (("after",) if eager else ("before", "after")):
+            for cls, dnc in members:
+                if when == "before" and issubclass(cls, TrueSub):
+                    continue
+                info0 = {"eager": eager, "child_decl": list(decl) if isinstance(decl, tuple) else decl,
+                         "class": cls.__name__, "declared": list(dnc), "when": when}
+                # ---- the instance itself is the receiver
+                for ci, (name, call, touched) in enumerate(calls):
+                    mode = "ctor" if (ci + (when == "after")) % 2 == 0 else "inplace"
+                    o = _dp_make(cls, K, mode)
+                    del args[:]
+                    n += 1
+                    try:
+                        r = call(o)
+                    except Exception as e:      # not this property (C01/C04...); counted, must stay 0 on /repo
+                        raised += 1
+                        extra.setdefault("dnc_parent_raised", []).append("%s.%s: %r" % (cls.__name__, name, e))
+                        continue
+                    so, sr = vars(o), vars(r)
+                    reasons = []
+                    if r is o:
+                        reasons.append("the result is the receiver itself")
+                    exempt = [so[a] for a in dnc if a in so] + list(args)
+                    shared = c02_gen.shared_objects(r, o, exempt)
+                    if shared and r is not o:
+                        reasons.append("%d mutable object(s) reachable from both result and receiver, e.g. %s"
+                                       % (len(shared), repr(shared[0])[:80]))
+                    for a in dnc:
+                        if "*" not in touched and a not in touched and a in so and (a not in sr or sr[a] is not so[a]):
+                            reasons.append("do_not_copy attribute %s duplicated" % a)
+                    if not reasons:
+                        before = c02_gen.canon(o, skip=dnc)
+                        pokes_skipped += _dp_poke(r, K)
+                        if c02_gen.canon(o, skip=dnc) != before:
+                            reasons.append("in-place changes of the result are visible through the receiver")
+                        before = c02_gen.canon(r, skip=dnc)
+                        pokes_skipped += _dp_poke(o, K)
+                        if c02_gen.canon(r, skip=dnc) != before:
+                            reasons.append("in-place changes of the receiver are visible through the result")
+                    if reasons:
+                        report(reasons, dict(info0, call=name, nesting="receiver, built by " + mode))
+                # ---- instances nested in a copy-on-write holder
+                H = holder(cls)
+                for name, call, whole in _dp_holder_calls(cls, K, arg):
+                    h = H(kid=_dp_make(cls, K), kids=[_dp_make(cls, K), _dp_make(cls, K, "inplace")],
+                          lookup={"a": _dp_make(cls, K), "b": _dp_make(cls, K)})
+                    del args[:]
+                    n += 1
+                    try:
+                        r = call(h)
+                    except Exception as e:
+                        raised += 1
+                        extra.setdefault("dnc_parent_raised", []).append("Holder[%s].%s: %r" % (cls.__name__, name, e))
+                        continue
+                    nested = [h.kid] + list(h.kids) + list(h.lookup.values())
+                    reasons = []
+                    if r is h:
+                        reasons.append("the result is the receiver itself")
+                    exempt = [vars(x)[a] for x in nested for a in dnc if a in vars(x)] + list(args)
+                    shared = c02_gen.shared_objects(r, h, exempt)
+                    if shared and r is not h:
+                        reasons.append("%d mutable object(s) reachable from both result and receiver, e.g. %s"
+                                       % (len(shared), repr(shared[0])[:80]))
+                    if whole and r is not h:
+                        pairs = [(h.kid, r.kid)] + list(zip(h.kids, r.kids)) + [(h.lookup[k], r.lookup[k]) for k in h.lookup]
+                        for x, y in pairs:
+                            if x is y:
+                                continue
+                            for a in dnc:
+                                if vars(y).get(a) is not vars(x)[a]:
+                                    reasons.append("do_not_copy attribute %s of a nested instance duplicated" % a)
+                    if not reasons:
+                        before = c02_gen.canon(h, skip=dnc, skip_cls=cls)
+                        for x in [vars(r).get("kid")] + list(vars(r).get("kids", [])) + list(vars(r).get("lookup", {}).values()):
+                            if x is not None and not any(x is a for a in args):
+                                pokes_skipped += _dp_poke(x, K)
+                        if c02_gen.canon(h, skip=dnc, skip_cls=cls) != before:
+                            reasons.append("in-place changes of the instances nested in the result are visible through the receiver")
+                        before = c02_gen.canon(r, skip=dnc, skip_cls=cls)
+                        for x in nested:
+                            pokes_skipped += _dp_poke(x, K)
+                        if c02_gen.canon(r, skip=dnc, skip_cls=cls) != before:
+                            reasons.append("in-place changes of the instances nested in the receiver are visible through the result")
+                    if reasons:
+                        report(reasons, dict(info0, call=name, nesting="nested in a holder: value, list elements, dict values"))
+            if when == "before":
+                TrueSub(inner=K("t"))          # first use of the do_not_copy=True class in the middle of the chain
+    extra["dnc_parent_probe"] = {"cases": n, "failing": bad, "raised": raised, "inplace_followups_skipped": pokes_skipped,
+                                 "configurations": len(configs),
+                                 "rule": "implementation only: classes derived (one / two levels, spec / eager spec / plain) "
+                                         "from a @spec_class(do_not_copy=True) class are copy-on-write and deep-copied: result distinct, "
+                                         "shares only declared do_not_copy attribute values and the caller's arguments; every helper kind, "
+                                         "deepcopy, as receiver and nested in a holder; in-place follow-ups on both sides"}
+
+
 def survivor_probe(chk, extra):
     """implementation-only: reset() / reset_<attr>() on a copy when the reset of one attribute is
     abandoned (its preparer needs an attribute that has no default and was removed first, so
@@ -164,6 +426,7 @@ def targeted(chk, cases, bad, extra):
     c02_gen.report_python_oracles(chk, "C02", list(cases) + mine, extra, "python_oracles")
     dnc_subclass_probe(chk, extra)
     dnc_family_probe(chk, extra)
+    dnc_parent_probe(chk, extra)
     survivor_probe(chk, extra)
     extra["rule"] = extra.get("rule", "") + "; targeted = receiver built from fresh arguments, optional in-place setup, copy-on-write helpers / deepcopy / no-op forms (update_<coll>(MISSING|EMPTY|UNCHANGED), update_<spec attr>(), identity transforms, with_<attr>(sentinel)), then in-place mutation of a result and of the receiver"
 
@@ -181,6 +444,14 @@ def main(tier, replay=None):
             found = c02_gen.python_oracles(case, obs)
             print("replay:", "still failing" if found else "passes now", found[:3])
             return 1 if found else 0
+        if r.get("kind") == "dnc-parent":
+            from common import Check
+            chk, extra = Check("C02", "quick"), {}
+            decl = r.get("child_decl")
+            dnc_parent_probe(chk, extra, only=(bool(r.get("eager")), tuple(decl) if isinstance(decl, list) else decl))
+            failing = extra["dnc_parent_probe"]["failing"]
+            print("replay:", "still failing" if failing else "passes now", extra)
+            return 1 if failing else 0
         if r.get("kind") in probes:
             from common import Check
             fn, key = probes[r["kind"]]
